@@ -229,9 +229,9 @@ PROPS = {
             {"name": "c14-decorator", "pkg": DECORATOR, "tests": ["TestVerifC14Decorator"],
              "checks": {"quick": 3000, "thorough": 120000}, "shards": {"quick": 4, "thorough": 6}},
             {"name": "c14-live-composite", "pkg": COMPOSITE, "tests": ["TestVerifC14LiveComposite"],
-             "checks": {"quick": 24, "thorough": 800}, "shards": {"quick": 4, "thorough": 8}, "timeout": {"quick": 600, "thorough": 3400}},
+             "checks": {"quick": 24, "thorough": 4000}, "shards": {"quick": 4, "thorough": 8}, "timeout": {"quick": 600, "thorough": 3400}},
             {"name": "c14-live-decorator", "pkg": DECORATOR, "tests": ["TestVerifC14LiveDecorator"],
-             "checks": {"quick": 18, "thorough": 600}, "shards": {"quick": 3, "thorough": 6}, "timeout": {"quick": 600, "thorough": 3400}},
+             "checks": {"quick": 18, "thorough": 3000}, "shards": {"quick": 3, "thorough": 6}, "timeout": {"quick": 600, "thorough": 3400}},
         ],
     },
     "C15": {
@@ -247,9 +247,9 @@ PROPS = {
             {"name": "c15-decorator", "pkg": DECORATOR, "tests": ["TestVerifC15Decorator"],
              "checks": {"quick": 1500, "thorough": 60000}, "shards": {"quick": 3, "thorough": 4}},
             {"name": "c15-live-composite", "pkg": COMPOSITE, "tests": ["TestVerifC15LiveComposite"],
-             "checks": {"quick": 32, "thorough": 1200}, "shards": {"quick": 4, "thorough": 8}, "timeout": {"quick": 600, "thorough": 3400}},
+             "checks": {"quick": 32, "thorough": 6000}, "shards": {"quick": 4, "thorough": 8}, "timeout": {"quick": 600, "thorough": 3400}},
             {"name": "c15-live-decorator", "pkg": DECORATOR, "tests": ["TestVerifC15LiveDecorator"],
-             "checks": {"quick": 24, "thorough": 800}, "shards": {"quick": 3, "thorough": 6}, "timeout": {"quick": 600, "thorough": 3400}},
+             "checks": {"quick": 24, "thorough": 4000}, "shards": {"quick": 3, "thorough": 6}, "timeout": {"quick": 600, "thorough": 3400}},
         ],
     },
     "C16": {
